@@ -9,6 +9,9 @@
  *   FAULTFS_MODE=eio-once
  *                        transient error: short write up to the budget, the next write call to a
  *                        watched file fails with EIO, every later call works again
+ *   FAULTFS_MODE=short-once
+ *                        the write call crossing the fault point writes only the bytes below it
+ *                        and reports that count; nothing fails (a short write is legal at any time)
  *   FAULTFS_MODE=killafter
  *                        as kill, but a metadata operation at the fault point is performed first
  *                        and the process dies right after it (the gap between a visible metadata
@@ -37,7 +40,7 @@
 static pthread_mutex_t mu = PTHREAD_MUTEX_INITIALIZER;
 static long long units = 0;
 static long long fault_at = -1;
-static int mode = 0; /* 0 kill, 1 eio, 2 enospc, 3 killafter, 4 eio-once */
+static int mode = 0; /* 0 kill, 1 eio, 2 enospc, 3 killafter, 4 eio-once, 5 short-once */
 #define KILLMODE (mode == 0 || mode == 3)
 static int failing = 0;
 static char dir[PATH_MAX] = "";
@@ -88,6 +91,7 @@ static void init(void) {
     if (m && !strcmp(m, "enospc")) mode = 2;
     if (m && !strcmp(m, "killafter")) mode = 3;
     if (m && !strcmp(m, "eio-once")) mode = 4;
+    if (m && !strcmp(m, "short-once")) mode = 5;
     const char *l = getenv("FAULTFS_LOG");
     if (l) strncpy(logpath, l, sizeof logpath - 1);
     atexit(dump_log);
@@ -168,6 +172,16 @@ static long long budget(int fd, long long count, int *die, const char *kind) {
     account_ino(fd, allowed);
     if (KILLMODE) {
         *die = 1;
+        return allowed;
+    }
+    if (mode == 5) {
+        /* a short write and nothing else: legal at any time, a caller that does not loop loses data */
+        fault_at = -1;
+        if (allowed == 0) {
+            units += count;
+            account_ino(fd, count);
+            return count;
+        }
         return allowed;
     }
     failing = 1;
